@@ -1,9 +1,16 @@
 package ast
 
 import (
+	"log"
 	"strconv"
 	"strings"
 )
+
+// EQU names expand recursively while an expression is evaluated; the depth is
+// bounded so that a cyclic chain of definitions ends with a diagnostic.
+const maxMacroExpansionDepth = 256
+
+var macroExpansionDepth int
 
 type DataType string
 
@@ -547,6 +554,15 @@ func (imm *ImmExp) Eval(env Env) (Exp, bool) {
 		// '$' でない場合は、マクロをチェックします
 		macroExp, ok := env.LookupMacro(identValue)
 		if ok {
+			// A chain of definitions that leads back to itself (possible through
+			// wrappers the definition-time check cannot see into, e.g.
+			// `X EQU Y*2` / `Y EQU [X*2]`) would expand without end.
+			if macroExpansionDepth >= maxMacroExpansionDepth {
+				log.Printf("error: EQU %s: definitions nest deeper than %d levels (cyclic definition?)", identValue, maxMacroExpansionDepth)
+				return imm, false
+			}
+			macroExpansionDepth++
+			defer func() { macroExpansionDepth-- }()
 			// マクロ定義を再帰的に評価します
 			// マクロ自体が評価されることを確認します
 			evalMacroExp, reduced := macroExp.Eval(env)
